@@ -152,6 +152,17 @@ func execC09(seg []Ev) []Ev {
 					if string(all) != string(seps)+string(quotes) {
 						e["held_what"], e["held_then"], e["held_now"] = "the caller's array of separators and quote symbols after it was handed to the setters", string(seps)+string(quotes), string(all)
 					}
+				} else if cfg == "quoteslast" {
+					// the quote symbols are replaced as the LAST configuration call: a character of the text served as the quote symbol
+					// in between and is an ordinary character again (seeded C09-r8-2)
+					t.SetFieldSeparators(seps)
+					for _, ch := range text {
+						if ch > 0x1 && ch != '\r' && ch != '\n' && !strings.ContainsRune(string(seps), ch) && !strings.ContainsRune(string(quotes), ch) {
+							t.SetQuoteSymbols([]rune{ch})
+							break
+						}
+					}
+					t.SetQuoteSymbols(quotes)
 				} else if cfg == "doubled" {
 					// every separator and quote character listed twice
 					t.SetFieldSeparators(append(append([]rune{}, seps...), seps...))
@@ -253,6 +264,8 @@ func genC09(g *Gen) {
 			cfg = "doubled"
 		case x == 6:
 			cfg = "after-rejected"
+		case x == 7:
+			cfg = "quoteslast"
 		}
 		g.Run(gen, []Ev{{"op": "csv", "seps": cpsR(seps), "quotes": cpsR(quotes), "eol": cps(eol), "table": table, "plans": plans, "cfg": cfg}})
 	}
